@@ -192,8 +192,10 @@ Proof.
   - inversion H; subst. fa_simpl. rewrite new_events_cons. auto.
   - match type of H with (let '(r1, fr) := fa_fill ffuel ?R in _) = _ => set (r0 := R) in * end.
     destruct (fa_fill ffuel r0) as [r1 fr] eqn:E1.
-    assert (r1 = r') by (destruct fr; inversion H; reflexivity). subst r1.
     destruct (fa_fill_reads _ _ _ _ E1) as (added & L & Hr & Hc & Hf & Hh).
+    assert (Hsame : cap r' = cap r1 /\ polf r' = polf r1 /\ polh r' = polh r1 /\ log r' = log r1)
+      by (destruct fr; inversion H; subst; fa_simpl; auto).
+    destruct Hsame as (Hc' & Hf' & Hh' & Hl'). rewrite Hc', Hf', Hh', Hl'.
     rewrite Hc, Hf, Hh, L. unfold r0. fa_simpl. splits; auto.
     change (added ++ EvSeek byte_ None :: log r) with (added ++ [EvSeek byte_ None] ++ log r).
     rewrite app_assoc, new_events_app, forallb_app. rewrite (reads_no_grow _ Hr). reflexivity.
